@@ -43,56 +43,127 @@ Proof.
     destruct (to_frac y), (to_frac (NFloat m e)); reflexivity.
 Qed.
 
-Theorem equal_amounts_float_sound a b ua ub f :
-  q_unit a = Some ua -> q_unit b = Some ub ->
-  convert_between (py_lower ub) (py_lower ua) = Ok f -> is_float f = true ->
-  is_float (q_value a) = false -> is_float (q_value b) = false ->
-  (1 # 1000000) <= to_Q (q_value a) -> to_Q (q_value a) <= 1000000 ->
-  (1 # 1000000) <= to_Q f -> to_Q f <= 1000000 ->
-  to_Q (q_value a) == to_Q (q_value b) * to_Q f ->
-  has_equal_value_to a b = Ok true.
+Definition eps15 : Q := 3 # 1000000000000000.
+Definition eps50 : Q := 1 # 100000000000000000000000000000000000000000000000000.
+
+(** [float(v)] of a positive moderate exact value *)
+Lemma to_float_pos v : is_float v = false -> 0 < to_Q v -> to_Q v <= 1000000000000 ->
+  exists x, to_float v = NOk x /\ is_float x = true /\
+            Qabs (to_Q x - to_Q v) <= to_Q v * eps15 + eps50.
 Proof.
-  intros Ua Ub Hc Ff Fa Fb A1 A2 F1 F2 E.
-  set (A := to_Q (q_value a)) in *. set (B := to_Q (q_value b)) in *. set (F := to_Q f) in *.
+  intros Hv Hp Hm. destruct tiny_small as [T0 T1]. destruct u_small as [U0 U1].
+  destruct (to_float_moderate v Hv) as [x [Hx [Fx Ex]]]; [rewrite Qabs_pos by lra; lra|].
+  exists x. split; [exact Hx|]. split; [exact Fx|]. rewrite (Qabs_pos (to_Q v)) in Ex by lra.
+  set (A := to_Q v) in *. assert (A * u53 <= A * (1 # 1000000000000000)) by (apply Qmult_le_l_weak; lra).
+  unfold eps15, eps50. eapply Qle_trans; [exact Ex|]. lra.
+Qed.
+
+(** [v * f] for an exact positive value and a positive float factor *)
+Lemma scaled_float v f : is_float v = false -> is_float f = true ->
+  (1 # 1000000000000) <= to_Q v -> to_Q v <= 1000000000000 -> (1 # 1000000) <= to_Q f -> to_Q f <= 1000000 ->
+  to_Q v * to_Q f <= 1000000000 ->
+  exists v', nmul v f = NOk v' /\ is_float v' = true /\
+             Qabs (to_Q v' - to_Q v * to_Q f) <= to_Q v * to_Q f * eps15 + eps50.
+Proof.
+  intros Fv Ff Bl Bh F1 F2 Ch. set (B := to_Q v) in *. set (F := to_Q f) in *.
+  assert (Bp : 0 < B) by lra.
   destruct tiny_small as [T0 T1]. destruct u_small as [U0 U1].
-  assert (Bpos : 0 < B) by nra. assert (Bhi : B <= 1000000000000) by nra.
-  destruct (to_float_moderate (q_value a) Fa) as [x [Hx [Fx Ex]]]; [fold A; rewrite Qabs_pos by lra; lra|].
-  destruct (to_float_moderate (q_value b) Fb) as [y [Hy [Fy Ey]]]; [fold B; rewrite Qabs_pos by lra; lra|].
-  fold A in Ex. fold B in Ey. rewrite (Qabs_pos A) in Ex by lra. rewrite (Qabs_pos B) in Ey by lra.
-  apply Qabs_le_iff in Ex. apply Qabs_le_iff in Ey.
-  set (X := to_Q x) in *. set (Y := to_Q y) in *.
-  (* the product *)
+  destruct (to_float_moderate v Fv) as [y [Hy [Fy Ey]]]; [fold B; rewrite Qabs_pos by lra; lra|].
+  fold B in Ey. rewrite (Qabs_pos B) in Ey by lra. apply Qabs_le_iff in Ey. set (Y := to_Q y) in *.
   assert (YF : (fst (to_frac y) * fst (to_frac f) # (snd (to_frac y) * snd (to_frac f))) == Y * F).
   { unfold Y, F, to_Q. destruct (to_frac y), (to_frac f). reflexivity. }
-  assert (YFb : 0 <= Y * F /\ Y * F <= A * (1 + u53) + tiny * F /\ A * (1 - u53) - tiny * F <= Y * F).
-  { assert (Y * F == B * F + (Y - B) * F) by ring. rewrite H, <- E.
-    assert ((Y - B) * F <= (B * u53 + tiny) * F) by (apply Qmult_le_compat_r; lra).
-    assert (- (B * u53 + tiny) * F <= (Y - B) * F) by (apply Qmult_le_compat_r; lra).
-    assert (B * u53 * F == A * u53) by (rewrite E; ring).
-    repeat split; nra. }
-  destruct YFb as [P0 [P1 P2]].
+  set (C := B * F) in *. assert (Cp : (1 # 1000000000000000000) <= C) by (unfold C; nra).
+  assert (S1 : (Y - B) * F <= (B * u53 + tiny) * F) by (apply Qmult_le_compat_r; lra).
+  assert (S2 : - (B * u53 + tiny) * F <= (Y - B) * F) by (apply Qmult_le_compat_r; lra).
+  assert (S3 : Y * F == C + (Y - B) * F) by (unfold C; ring).
+  assert (S4 : (B * u53 + tiny) * F == C * u53 + tiny * F) by (unfold C; ring).
+  assert (S1' : (Y - B) * F <= C * u53 + tiny * F) by (rewrite <- S4; exact S1).
+  assert (S2' : - (C * u53 + tiny * F) <= (Y - B) * F).
+  { assert (Hn : - (B * u53 + tiny) * F == - (C * u53 + tiny * F)) by (unfold C; ring). rewrite <- Hn. exact S2. }
+  assert (S5 : 0 <= C * u53) by (apply Qmult_le_0_compat; lra).
+  assert (S6 : C * u53 <= C * (1 # 1000000000000000)) by (apply Qmult_le_l_weak; lra).
+  assert (S7 : 0 <= tiny * F) by (apply Qmult_le_0_compat; lra).
+  assert (S8 : tiny * F <= tiny * 1000000) by (apply Qmult_le_l_weak; lra).
+  assert (P0 : 0 <= Y * F) by lra.
   destruct (round_two_sided (fst (to_frac y) * fst (to_frac f)) (snd (to_frac y) * snd (to_frac f))) as [v' [Rv Ev]].
-  { rewrite YF, Qabs_pos by exact P0. nra. }
+  { rewrite YF, Qabs_pos by exact P0. lra. }
   rewrite YF in Ev. rewrite (Qabs_pos (Y * F) P0) in Ev. apply Qabs_le_iff in Ev.
-  assert (Fv : is_float v' = true).
+  assert (Fv' : is_float v' = true).
   { unfold round_q in Rv. destruct (b64 _ _) as [g|] eqn:Bg; [|discriminate]. inversion Rv; subst. exact (b64_is_float _ _ _ Bg). }
-  unfold has_equal_value_to. rewrite Ua, Ub, Hc. unfold close_scaled.
-  rewrite (nmul_float_factor (q_value b) f y Fb Ff Hy), Rv. cbn [of_nres]. unfold isclose.
-  rewrite (isclose_with_to_float _ _ (q_value a) v' x Hx Fx).
-  rewrite (isclose_true x v' Fx Fv); [reflexivity | | |].
-  - fold X. assert (0 <= A * u53) by (apply Qmult_le_0_compat; lra).
-    assert (A * u53 <= A * (1 # 1000000000000000)) by (apply Qmult_le_l_weak; lra). lra.
-  - fold X. assert (0 <= A * u53) by (apply Qmult_le_0_compat; lra).
-    assert (A * u53 <= A * (1 # 1000000000000000)) by (apply Qmult_le_l_weak; lra). lra.
-  - fold X. set (V := to_Q v') in *. apply Qabs_le_iff.
-    assert (H1 : Y * F * u53 <= Y * F * (1 # 1000000000000000)) by (apply Qmult_le_l_weak; assumption).
-    assert (H1' : 0 <= Y * F * u53) by (apply Qmult_le_0_compat; lra).
-    assert (H2 : A * u53 <= A * (1 # 1000000000000000)) by (apply Qmult_le_l_weak; lra).
-    assert (H2' : 0 <= A * u53) by (apply Qmult_le_0_compat; lra).
-    assert (H3 : tiny * F <= tiny * 1000000) by (apply Qmult_le_l_weak; lra).
-    assert (H3' : 0 <= tiny * F) by (apply Qmult_le_0_compat; lra).
-    assert (H4 : tiny * 1000000 <= 1 # 1000000000000000000000000000000000000000000000000000000) by lra.
-    set (Z1 := Y * F) in *. set (Z2 := Y * F * u53) in *. set (Z3 := A * u53) in *. set (Z4 := tiny * F) in *.
-    assert (P1' : Z1 <= A + Z3 + Z4) by lra. assert (P2' : A - Z3 - Z4 <= Z1) by lra.
-    clearbody Z1 Z2 Z3 Z4. split; lra.
+  exists v'. split; [rewrite (nmul_float_factor v f y Fv Ff Hy); exact Rv|]. split; [exact Fv'|].
+  assert (S9 : Y * F * u53 <= Y * F * (1 # 1000000000000000)) by (apply Qmult_le_l_weak; lra).
+  assert (S10 : 0 <= Y * F * u53) by (apply Qmult_le_0_compat; lra).
+  unfold eps15, eps50. apply Qabs_le_iff. destruct Ev as [Ev1 Ev2].
+  set (Z1 := Y * F) in *. set (Z2 := Z1 * u53) in *. set (Z3 := C * u53) in *. set (Z4 := tiny * F) in *.
+  set (Z5 := (Y - B) * F) in *. set (V := to_Q v') in *.
+  clear S1 S2 S4 Ey YF Ch. clearbody Z2 Z3 Z4 Z5. clearbody Z1. clearbody C. split; lra.
 Qed.
+
+Lemma isclose_exact_float va v' x : to_float va = NOk x -> is_float x = true ->
+  isclose va v' = match isclose_with (fst isclose_rel_tol) (snd isclose_rel_tol) x v' with Some r => Ok r | None => Err OverflowError end.
+Proof. intros H Hx. unfold isclose. rewrite (isclose_with_to_float _ _ va v' x H Hx). reflexivity. Qed.
+
+Section Float.
+Variables (a b : quantity) (ua ub : str) (f : num).
+Hypothesis Ua : q_unit a = Some ua.
+Hypothesis Ub : q_unit b = Some ub.
+Hypothesis Hc : convert_between (py_lower ub) (py_lower ua) = Ok f.
+Hypothesis Ff : is_float f = true.
+Hypothesis Fa : is_float (q_value a) = false.
+Hypothesis Fb : is_float (q_value b) = false.
+Let A := to_Q (q_value a).
+Let B := to_Q (q_value b).
+Let F := to_Q f.
+Hypothesis A1 : (1 # 1000000) <= A.
+Hypothesis A2 : A <= 1000000.
+Hypothesis F1 : (1 # 1000000) <= F.
+Hypothesis F2 : F <= 1000000.
+Hypothesis C1 : (1 # 1000000) <= B * F.
+Hypothesis C2 : B * F <= 1000000.
+
+Lemma float_setup : exists x v', to_float (q_value a) = NOk x /\ is_float x = true /\
+  nmul (q_value b) f = NOk v' /\ is_float v' = true /\
+  Qabs (to_Q x - A) <= A * eps15 + eps50 /\ Qabs (to_Q v' - B * F) <= B * F * eps15 + eps50.
+Proof.
+  assert (Bp : (1 # 1000000000000) <= B).
+  { destruct (Qlt_le_dec B (1 # 1000000000000)) as [L|]; [|assumption]. exfalso.
+    assert (B * F < (1 # 1000000000000) * F) by (apply Qmult_lt_compat_r; lra). lra. }
+  assert (Bh : B <= 1000000000000).
+  { destruct (Qlt_le_dec 1000000000000 B) as [L|]; [|assumption]. exfalso.
+    assert (1000000000000 * F < B * F) by (apply Qmult_lt_compat_r; lra). lra. }
+  destruct (to_float_pos (q_value a) Fa) as [x [Hx [Fx Ex]]]; [fold A; lra | fold A; lra|].
+  destruct (scaled_float (q_value b) f Fb Ff) as [v' [Hv [Fv Ev]]]; try (fold B; fold F; lra).
+  exists x, v'. repeat split; assumption.
+Qed.
+
+Theorem float_sound : A == B * F -> has_equal_value_to a b = Ok true.
+Proof.
+  intro E. destruct float_setup as [x [v' [Hx [Fx [Hv [Fv [Ex Ev]]]]]]].
+  unfold has_equal_value_to. rewrite Ua, Ub, Hc. unfold close_scaled. rewrite Hv. cbn [of_nres].
+  rewrite (isclose_exact_float _ v' x Hx Fx). rewrite <- E in Ev.
+  apply Qabs_le_iff in Ex. apply Qabs_le_iff in Ev. unfold eps15, eps50 in *.
+  rewrite (isclose_true x v' Fx Fv); [reflexivity | lra | lra |].
+  apply Qabs_le_iff. split; lra.
+Qed.
+
+Theorem float_complete :
+  A * (2 # 1000000000) <= Qabs (A - B * F) -> B * F * (2 # 1000000000) <= Qabs (A - B * F) ->
+  has_equal_value_to a b = Ok false.
+Proof.
+  intros D1 D2. destruct float_setup as [x [v' [Hx [Fx [Hv [Fv [Ex Ev]]]]]]].
+  unfold has_equal_value_to. rewrite Ua, Ub, Hc. unfold close_scaled. rewrite Hv. cbn [of_nres].
+  rewrite (isclose_exact_float _ v' x Hx Fx).
+  set (C := B * F) in *. set (X := to_Q x) in *. set (V := to_Q v') in *.
+  assert (Tri : Qabs (A - C) <= Qabs (V - X) + (Qabs (X - A) + Qabs (V - C))).
+  { setoid_replace (A - C) with ((- (V - X)) + ((- (X - A)) + (V - C))) by ring.
+    eapply Qle_trans; [apply Qabs_triangle|]. rewrite Qabs_opp. apply Qplus_le_compat; [apply Qle_refl|].
+    eapply Qle_trans; [apply Qabs_triangle|]. rewrite Qabs_opp. apply Qle_refl. }
+  apply Qabs_le_iff in Ex. apply Qabs_le_iff in Ev. unfold eps15, eps50 in *.
+  assert (EX : Qabs (X - A) <= A * (3 # 1000000000000000) + (1 # 100000000000000000000000000000000000000000000000000))
+    by (apply Qabs_le_iff; exact Ex).
+  assert (EV : Qabs (V - C) <= C * (3 # 1000000000000000) + (1 # 100000000000000000000000000000000000000000000000000))
+    by (apply Qabs_le_iff; exact Ev).
+  set (AD := Qabs (A - C)) in *. set (VD := Qabs (V - X)) in *. set (E1 := Qabs (X - A)) in *. set (E2 := Qabs (V - C)) in *.
+  rewrite (isclose_false x v' Fx Fv); [reflexivity | | | | | |]; fold X; fold V; fold VD; lra.
+Qed.
+End Float.
